@@ -4,8 +4,10 @@
 # (or the check named in meta.json when that one cannot see it) is run against a scratch worktree with the change applied;
 # it must report a VIOLATION. Prints one line per change and a summary; exit 1 if any change goes unnoticed.
 export GOFLAGS=-mod=mod GOPROXY=off GOSUMDB=off GOTOOLCHAIN=local
-cd /verif
-if [ "${1:-}" = all ]; then IDS=$(ls seeded); else IDS="c01-m5 c02-m5 c03-m6 c04-m6 c05-m4 c06-m5 c07-m5 c08-m6 c09-m5 c10-m5 c11-m5 c12-m6 c13-m5 c14-m6 c15-m5 c16-m5 c17-m5 c18-m5 c19-m5 c02-m7 c03-m8 c04-m7 c05-m7 c07-m7 c07-m9 c07-m10 c08-m8 c10-m8 c11-m9 c14-m9 c15-m9 c16-m8 c17-m7 c17-m8"; fi
+V="${VERIF_SNAP:-/verif}"   # VERIF_SNAP=<dir>: run the checks from a snapshot copy of /verif
+cd "$V"
+# `ids <id>...`: just these (used to spread `all` over several parallel streams)
+if [ "${1:-}" = ids ]; then shift; IDS="$*"; elif [ "${1:-}" = all ]; then IDS=$(ls seeded | grep '^c'); else IDS="c01-m5 c02-m5 c03-m6 c04-m6 c05-m4 c06-m5 c07-m5 c08-m6 c09-m5 c10-m5 c11-m5 c12-m6 c13-m5 c14-m6 c15-m5 c16-m5 c17-m5 c18-m5 c19-m5 c02-m7 c03-m8 c04-m7 c05-m7 c07-m7 c07-m9 c07-m10 c08-m8 c10-m8 c11-m9 c14-m9 c15-m9 c16-m8 c17-m7 c17-m8"; fi
 miss=0; n=0
 for SID in $IDS; do
   [ -f seeded/$SID/meta.json ] || continue
@@ -13,12 +15,14 @@ for SID in $IDS; do
   WT=/tmp/wt/sc-$SID
   git -C /repo worktree remove --force "$WT" >/dev/null 2>&1
   git -C /repo worktree add -q --detach "$WT" HEAD || continue
-  if ! git -C "$WT" apply /verif/seeded/$SID/patch.diff 2>/dev/null; then echo "$SID: patch no longer applies to /repo HEAD"; git -C /repo worktree remove --force "$WT"; continue; fi
-  o=$(VERIF_REPO="$WT" VERIF_OUT_DIR=/tmp/wt/scout-$SID ./check $P 2>&1); rc=$?
+  if ! git -C "$WT" apply "$V"/seeded/$SID/patch.diff 2>/dev/null; then echo "$SID: patch no longer applies to /repo HEAD"; git -C /repo worktree remove --force "$WT"; continue; fi
+  T=$(python3 -c "import json;print(json.load(open('seeded/$SID/meta.json')).get('check_tier','quick'))")
+  [ "$T" = thorough ] && P=$(python3 -c "import json;print(list(json.load(open('seeded/$SID/meta.json'))['caught_by_thorough_only'])[0])")
+  o=$(VERIF_REPO="$WT" VERIF_OUT_DIR=/tmp/wt/scout-$SID ./check $P --tier $T 2>&1); rc=$?
   n=$((n+1))
   if [ $rc = 1 ]; then echo "$SID: caught by $P :: $(echo "$o" | grep -m1 'signature:' | cut -c1-120)"; else echo "$SID: NOT CAUGHT by $P (rc=$rc)"; miss=$((miss+1)); fi
   git -C /repo worktree remove --force "$WT" >/dev/null 2>&1
-  rm -rf /tmp/wt/scout-$SID /verif/.build/*$(echo "$WT" | md5sum | cut -c1-8)*
+  rm -rf /tmp/wt/scout-$SID "$V"/.build/*$(echo "$WT" | md5sum | cut -c1-8)*
 done
 echo "selfcheck: $n seeded changes run, $miss not caught"
 [ $miss = 0 ]
